@@ -443,8 +443,12 @@ def _on_step(kernel, act, op):
         # something a forked process could not do to its parent or siblings
         fp = _globals_fingerprint(w.mutable_globals)
         if fp != w.globals_fp:
-            if w.last_actor_role == "W" and w.shared_state_violation is None:
-                w.shared_state_violation = "worker-mutated-module-level-state"
+            if w.shared_state_violation is None:
+                if w.last_actor_role == "W":
+                    w.shared_state_violation = "worker-mutated-module-level-state"
+                elif any(not p.dead for p in w.procs):
+                    # a forked worker keeps seeing the state as it was at fork time; the simulated one does not
+                    w.shared_state_violation = "module-level-state-changed-while-workers-run"
             w.globals_fp = fp
         w.last_actor_role = act.target.role if op is not None else None
     if op is not None and act.target.role == "P":
